@@ -406,7 +406,8 @@ class ExprMixin:
             return
         self.oblige(st, "safe", f"nonnull@{getattr(node, 'lineno', 0)}:{ast.unparse(node)[:40]}",
                     base.z != base.sort.null, node)
-        st.assume(base.z != base.sort.null)
+        if not self.binders:
+            st.assume(base.z != base.sort.null)
 
     # ---------------------------------------------------------------- operators
     def ev_UnaryOp(self, node, st):
@@ -431,6 +432,10 @@ class ExprMixin:
                     continue
                 if isinstance(f, ast.Attribute) and f.attr in ("startswith", "endswith", "get", "keys", "values", "items"):
                     continue
+                if isinstance(f, ast.Attribute):
+                    pc_ = self.world.by_method.get(f.attr)
+                    if pc_ is not None and pc_.pure and getattr(pc_, "returns_expr", None) and not pc_.raises:
+                        continue
                 if isinstance(f, ast.Subscript) and isinstance(f.value, ast.Name) and f.value.id in ("forall", "exists"):
                     continue
                 return True
